@@ -66,3 +66,56 @@ impl Vis {
         ensures r == vis_int(self, 128, v as int),
     { unimplemented!() }
 }
+
+uninterp spec fn vis_bytes(v: Vis, bytes: Seq<u8>) -> Result<VisVal, Error>;
+impl Vis {
+    #[verifier::external_body]
+    fn visit_byte_buf(self, v: Vec<u8>) -> (r: Result<VisVal, Error>)
+        ensures r == vis_bytes(self, v@),
+    { unimplemented!() }
+}
+
+/// what one element of a byte sequence must be: an integer scalar whose exact value fits u8
+spec fn byte_elem(e: Ev, legacy: bool) -> Option<u8> {
+    match e {
+        Ev::Scalar { value, .. } => match uint_spec(spec_trim(encode_utf8(value@)), legacy) {
+            Some(x) => if x <= 255 { Some(x as u8) } else { None },
+            None => None },
+        _ => None }
+}
+
+/// the bytes spelled by `rest[i..]` up to the closing SeqEnd (None: not a well-formed byte sequence)
+spec fn seq_bytes(rest: Seq<Ev>, i: int, legacy: bool) -> Option<Seq<u8>>
+    decreases rest.len() - i,
+{
+    if i < 0 || i >= rest.len() { None }
+    else if rest[i] is SeqEnd { Some(Seq::<u8>::empty()) }
+    else { match byte_elem(rest[i], legacy) {
+        None => None,
+        Some(b) => match seq_bytes(rest, i + 1, legacy) { None => None, Some(t) => Some(seq![b] + t) } } }
+}
+
+/// prefix `out` collected from rest[1..1+out.len()] — forward (loop) view of `seq_bytes`
+spec fn seq_bytes_from(rest: Seq<Ev>, out: Seq<u8>, legacy: bool) -> Option<Seq<u8>> {
+    match seq_bytes(rest, (1 + out.len() as int), legacy) { None => None, Some(t) => Some(out + t) }
+}
+
+proof fn lemma_seq_bytes_step(rest: Seq<Ev>, out: Seq<u8>, b: u8, legacy: bool)
+    requires (1 + out.len() as int) < rest.len(), !(rest[(1 + out.len() as int)] is SeqEnd), byte_elem(rest[(1 + out.len() as int)], legacy) == Some(b),
+    ensures seq_bytes_from(rest, out.push(b), legacy) == seq_bytes_from(rest, out, legacy),
+{
+    match seq_bytes(rest, (2 + out.len() as int), legacy) {
+        None => {},
+        Some(t) => { assert(out.push(b) + t =~= out + (seq![b] + t)); } }
+}
+
+/// `<u8 as serde::Deserialize>::deserialize(YamlDeserializer::new(ev, cfg))`.
+/// ASSUMED (dependency): serde's `impl Deserialize for u8` is `deserializer.deserialize_u8(v)` with a visitor whose
+/// `visit_u8` returns its argument.  Composed with `deserialize_u8` (contract proved in this unit) this gives:
+#[verifier::external_body]
+fn serde_u8_via_yaml_deserializer<'de>(ev: &mut dyn Events<'de>, cfg: Cfg) -> (r: Result<u8, Error>)
+    ensures match r {
+        Ok(b) => old(ev).rest().len() > 0 && byte_elem(old(ev).rest()[0], cfg.legacy_octal_numbers) == Some(b)
+                 && final(ev).rest() == old(ev).rest().skip(1),
+        Err(_) => true },
+{ unimplemented!() }
